@@ -397,6 +397,11 @@ func runWorldSeq(s *kernel.Sim, p profile) {
 			case 7:
 				d.Stale(anyActor(), d.choose("tooold", 2) == 1)
 			case 8:
+				if (p.prop == "C02" || p.prop == "C01") && !p.storeFaults && d.choose("clockback", 10) == 0 {
+					// the pool's clock is set back (NTP step, restored VM snapshot): a check-in lies in the future
+					d.ClockBack(anyActor(), []time.Duration{time.Millisecond, 30 * time.Second, 59 * time.Minute}[d.choose("backby", 3)])
+					break
+				}
 				d.Advance(gapsW[d.choose("gap", len(gapsW))])
 			case 9:
 				if len(w.Wallets) > 0 {
